@@ -279,10 +279,10 @@ func exhaustiveAlphabet(m int) []apiCall {
 
 func runC13(c *Ctx) {
 	depth := 3
-	nRandom := int64(20000)
+	nRandom := int64(160000)
 	if c.Thorough() {
 		depth = 4
-		nRandom = 2000000
+		nRandom = 8000000
 	}
 	if c.Only >= 0 {
 		c.runC13Case(c.Only, depth, nRandom)
